@@ -54,12 +54,21 @@ def build(env, suites, per_cell):
                 s.call("ledger", mark="after_setup_s")
                 s.call("setup_r", mode=mode, skr="$kR.sk", enc="$S.enc", info=info, out="R", **ra)
                 s.call("ledger", mark="after_setup_r")
+                s.call("peek", ctx="S")
+                s.call("peek", ctx="R")
                 # --- use the contexts 0, 1 or many times
+                if aead != 0xFFFF and rnd.random() < 0.5:
+                    # a rejected delivery before anything else (per-message nonce == base nonce here)
+                    s.call("open", ctx="R", api="alloc", ct=g.rbytes(24), aad="-")
                 if aead != 0xFFFF:
                     for i in range(rnd.choice([0, 1, 9])):
                         s.call("seal", ctx="S", api=rnd.choice(["alloc", "inplace"]), pt=g.rbytes(rnd.choice([0, 20])), aad="-", out="m%d" % i)
                         s.call("open", ctx="R", api="alloc", ct="$m%d.full" % i, aad="-")
                 s.call("export", ctx="S", exctx="-", len=16)
+                s.call("export", ctx="R", exctx="-", len=16)
+                if aead != 0xFFFF and rnd.random() < 0.5:
+                    # the last thing the receiver sees before it is dropped is a rejected delivery
+                    s.call("open", ctx="R", api="inplace", ct=g.rbytes(8), tag=g.rbytes(16), aad="-")
                 s.call("ledger", mark="before_drops")
                 s.call("drop", ctx="S", scan=1, obj="context", role="S")
                 s.call("drop", ctx="R", scan=1, obj="context", role="R")
@@ -164,6 +173,7 @@ def monitor(sess, extra):
     build = extra or "checked"
     marks = {}
     mode = "?"
+    initial = {}
     for op in sess.ops:
         if op.ret is None:
             r.violation("C16:noreturn:%s" % op.op, "%s never returned" % op.id, sess, op)
@@ -189,6 +199,8 @@ def monitor(sess, extra):
                 continue
             r.distinct.add((sess.ids, mode, op.args["role"], "shared_secret", build))
             r.counts["scan:shared_secret"] += 1
+        elif op.op == "peek" and op.ok():
+            initial[op.args["ctx"]] = {"bn": op.ret["bn_at"], "es": op.ret["es_at"]}
         elif op.op == "drop" and op.args.get("scan") == "1":
             r.counts["evaluations"] += 1
             ret = op.ret
@@ -212,6 +224,16 @@ def monitor(sess, extra):
                                     "sender" if op.args["role"] == "S" else "receiver", build, what, ret[nd + "_pre"], ret["size"]), sess, op)
                 else:
                     if "0" in zeros:
+                        # an unwiped sighting that was already there right after setup is residue a move carried
+                        # along; one that APPEARED later was put there by an operation and is live state
+                        init = initial.get(op.args["ctx"], {}).get(nd)
+                        offs = ret[nd + "_pre"].split(",")
+                        late = [o for o, z in zip(offs, zeros) if z == "0" and init is not None and o not in init.split(",")]
+                        if late:
+                            r.violation("C16:%s_copied_and_not_wiped" % ("base_nonce" if nd == "bn" else "exporter_secret"),
+                                        "the %s context (%s build) holds a copy of its %s at offset %s that was not there after setup (an operation stored it) and that survives the drop" % (
+                                            "sender" if op.args["role"] == "S" else "receiver", build, what, ",".join(late)), sess, op)
+                            continue
                         r.counts["stale_copies_in_dead_bytes_of_context"] += zeros.count("0")
                     r.distinct.add((sess.ids, mode, op.args["role"], what, build))
                     r.counts["scan:%s" % what.replace(" ", "_")] += 1
